@@ -682,6 +682,7 @@ fn gen_picture_raw(rng: &mut Rng, uri: String, limit: usize) -> Picture {
         },
         header_before_error: rng.chance(1, 3),
         mime_only_first_chunk: rng.chance(1, 4),
+        embedded_vanishes_at: None,
         later_error: if rng.chance(1, 8) {
             Some((
                 *rng.pick(&[1u64, 2, limit as u64, limit as u64 + 1, 3 * limit as u64, 5000]),
